@@ -10,7 +10,7 @@ dx in 20..120, slopes within +-56 deg, 2..5 points with mid-point offsets in {0,
 in an array and in every kind of plain python sequence.
 
 Space (histories): one cropper object along every sequence of length <= depth of public events (crop, get_crop_inputs with another target height,
-line_height / scale / poly set to another value); the crop that follows is compared with a cropper constructed with the configuration in force.
+line_height / scale / poly set to another value, a degenerate line cropped in between); the crop that follows is compared with a cropper constructed with the configuration in force.
 """
 import itertools
 import math
@@ -21,7 +21,7 @@ ID = 'C10'
 
 MANIFEST = dict(
     technique='explicit-state enumeration of a baseline/heights/interpolation/line-height/scale lattice on the real cropper over a coordinate image (the crop is the sampled source coordinate of every output pixel); geometric oracle + fast-vs-general-path and shift differentials',
-    text='Bounded exhaustive: every baseline of the lattice (3 start positions x dx 20..120 x 9 slopes x 6 point configurations) x heights x interpolation order {0,1,2} x line height x scale (about 1.3e5 crops quick, 1.1e6 thorough). For each crop: exact height, width = length x target height / scaled line height, first/last column at the first/last baseline point, uniform column spacing, rows perpendicular and running linearly from -ascender to +descender, never the blank fallback; the partly-outside (general) path must agree with the same line shifted inside a larger canvas (fast path); degenerate baselines must give a crop or a blank image of the configured height, never an error (crop and LineCropper). Added sub-sweeps: baselines held as unsigned / int32 / float32 arrays, numpy zero heights, every line cropped twice, a long-lived cropper shared by all cases of a worker (same crop as a fresh one, earlier crops untouched), LineCropper on a shifted canvas, densely sampled baselines of 33-160 points, and a geometric decision whether blank samples of an inside line are a violation. Lines whose band touches the page by exactly one row / column / corner sample (fast vs general path), requested a second time with the same baseline array moved in place. Baselines held in plain python sequences (list of lists / list of tuples / tuple of tuples, heights as list / tuple): every degenerate baseline x interpolation order x container through crop and LineCropper (never an error, same crop or same blank image as for an array - so the blank fallback is reached with every kind of argument), and ordinary lines of the lattice. One long-lived cropper along every history of length <= 2 (thorough: 3) over the 12 public events {crop, get_crop_inputs with target height 16/32/64, line_height := 16/32/64, scale := 0.8/1.5, poly := 0/1/2} x 3 lines x 6 initial configurations: the crop that follows has the height configured now and equals the crop of a cropper freshly constructed with the configuration in force; every requested grid has the requested height.',
+    text='Bounded exhaustive: every baseline of the lattice (3 start positions x dx 20..120 x 9 slopes x 6 point configurations) x heights x interpolation order {0,1,2} x line height x scale (about 1.3e5 crops quick, 1.1e6 thorough). For each crop: exact height, width = length x target height / scaled line height, first/last column at the first/last baseline point, uniform column spacing, rows perpendicular and running linearly from -ascender to +descender, never the blank fallback; the partly-outside (general) path must agree with the same line shifted inside a larger canvas (fast path); degenerate baselines must give a crop or a blank image of the configured height, never an error (crop and LineCropper). Added sub-sweeps: baselines held as unsigned / int32 / float32 arrays, numpy zero heights, every line cropped twice, a long-lived cropper shared by all cases of a worker (same crop as a fresh one, earlier crops untouched), LineCropper on a shifted canvas, densely sampled baselines of 33-160 points, and a geometric decision whether blank samples of an inside line are a violation. Lines whose band touches the page by exactly one row / column / corner sample (fast vs general path), requested a second time with the same baseline array moved in place. Baselines held in plain python sequences (list of lists / list of tuples / tuple of tuples, heights as list / tuple): every degenerate baseline x interpolation order x container through crop and LineCropper (never an error, same crop or same blank image as for an array - so the blank fallback is reached with every kind of argument), and ordinary lines of the lattice. One long-lived cropper along every history of length <= 2 (thorough: 3) over the 12 public events {crop, get_crop_inputs with target height 16/32/64, line_height := 16/32/64, scale := 0.8/1.5, poly := 0/1/2} x 3 lines x 6 initial configurations: the crop that follows has the height configured now and equals the crop of a cropper freshly constructed with the configuration in force; every requested grid has the requested height. Wave 11: the history alphabet also holds the event -another line of the degenerate set (zero heights / single pixel / coincident points) is cropped in between- (15 events; that crop is a crop or the blank image of the configured height, never an error, and the crop that follows equals that of a fresh cropper); one sampling grid of get_crop_inputs is passed to fast_remap for a second raster (same cut as the first), and crop(..., return_forward_mapping=True) returns the same crop together with a mapping that is where the crop was sampled (lines inside and partly outside the page).',
     note='Integer baseline coordinates (the cropper truncates them); mild curvature only (tolerance grows with the distance of the points from their chord); tolerances: 0.3 px across, 1.5 px along the baseline for straight lines.',
     ref='3/C10')
 
@@ -119,10 +119,12 @@ def maxdiff(a, b):
 RECONF_LH0 = [16, 48]
 RECONF_LINES = [(0, 59, 1, 0), (0, 80, 4, 4), (2, 62, 1, 1)]        # (start, dx, slope index, point configuration): straight / curved 4 points / partly outside
 RECONF_EVENTS = [('crop',)] + [('grid', h) for h in (16, 32, 64)] + [('lh', h) for h in (16, 32, 64)] + [('scale', s) for s in (0.8, 1.5)] + \
-                [('poly', p) for p in (0, 1, 2)]
+                [('poly', p) for p in (0, 1, 2)] + [('other', n) for n in ('zero-heights', 'single-pixel', 'coincident-points')]
+# ('other', name): the cropper crops ANOTHER line in between - a line of the degenerate set (2 points with zero heights, 2 points on one pixel, 4
+# points two by two coincident), as a page cropper meets them among ordinary lines; that crop is a crop or the blank image, never an error
 RECONF_ATTR = {'lh': 'line_height', 'poly': 'poly', 'scale': 'scale'}
 RECONF_KIND = {'grid': 'a-sampling-grid-of-another-height-was-requested', 'lh': 'line_height-was-changed', 'scale': 'scale-was-changed',
-               'poly': 'interpolation-order-was-changed', 'crop': 'earlier-crops'}
+               'poly': 'interpolation-order-was-changed', 'crop': 'earlier-crops', 'other': 'a-degenerate-line-was-cropped'}
 
 
 def baseline_points(start, dx, slope, pc, dense=None):
@@ -303,7 +305,7 @@ def check_degenerate(case, ctx):
 
 def check_reconf(case, ctx):
     """history on ONE cropper object: crops, sampling grids of other heights (get_crop_inputs is public: the ALTO export asks for 16 rows) and
-    changes of the public configuration attributes; the crop that follows must have the height configured NOW and equal the crop of a cropper
+    changes of the public configuration attributes, crops of OTHER (degenerate) lines; the crop that follows must have the height configured NOW and equal the crop of a cropper
     constructed with the configuration in force (the statement is quantified over configurations, not over how a cropper came to have one)"""
     from pero_ocr.core.crop_engine import EngineLineCropper
     st, dx, sl, pc = RECONF_LINES[case['line']]
@@ -323,10 +325,31 @@ def check_reconf(case, ctx):
     eng = fresh()
     told = []
     sampled = False              # the cropper has computed a sampling grid already
-    reused = other_grid = False
+    reused = other_grid = after_blank = False
     last = 'crop'
     for ev in events:
-        if ev[0] == 'crop':
+        if ev[0] == 'other':
+            _, opts, oh = next(d for d in DEGENERATE if d[0] == ev[1])
+            told.append(f'crop of the {ev[1]} line {opts} with heights {oh}')
+            try:
+                oc = eng.crop(img, np.asarray(opts), np.asarray(oh, dtype=np.float64))
+            except Exception as e:  # noqa
+                ctx.violation('degenerate-never-an-error', f'{ID}/long-lived-cropper/degenerate/{ev[1]}/crop-raises/{type(e).__name__}',
+                              f'cropper constructed with line_height={case["lh"]}, poly={case["poly"]}, scale=1.0; then ' + ', '.join(told)
+                              + f': raised {type(e).__name__}: {e}')
+                return
+            finally:
+                ctx.executed()
+            if oc.ndim != 3 or oc.shape[0] != cfg['lh']:
+                ctx.violation('degenerate-blank-of-configured-height', f'{ID}/long-lived-cropper/degenerate/{ev[1]}/wrong-height',
+                              f'cropper constructed with line_height={case["lh"]}, poly={case["poly"]}, scale=1.0; then ' + ', '.join(told)
+                              + f': shape {oc.shape}, configured height {cfg["lh"]}')
+                return
+            sampled = True
+            last = 'other'
+            if oc.shape[1] == 32 and not oc.any():
+                after_blank = True
+        elif ev[0] == 'crop':
             eng.crop(img, b, hts())
             ctx.executed()
             sampled = True
@@ -387,6 +410,8 @@ def check_reconf(case, ctx):
         ctx.nontrivial(('reconf', case['line'], case['lh'], case['poly'], tuple(case['reconf'])), 'cropper-reused-after-its-configuration-changed')
     if other_grid:
         ctx.nontrivial(('reconf-grid', case['line'], case['lh'], case['poly'], tuple(case['reconf'])), 'crop-after-a-sampling-grid-of-another-height')
+    if after_blank:
+        ctx.nontrivial(('reconf-blank', case['line'], case['lh'], case['poly'], tuple(case['reconf'])), 'crop-after-a-line-that-fell-back-to-the-blank-image')
 
 
 def check_case(case, ctx):
@@ -643,6 +668,37 @@ def check_case(case, ctx):
                           f'{desc}: max difference {float(np.abs(fast - full).max()) if fast.shape == full.shape else None}')
             return
         ctx.tag('fast-path-vs-full-remap')
+        # history: ONE sampling grid is used for a second raster of the page (an ink mask, a detection map - here the page again): the second
+        # cut equals the first
+        second = eng.fast_remap(img, coords)
+        ctx.executed()
+        if second.shape != fast.shape or not (maxdiff(second, fast) <= 1e-3):
+            ctx.violation('same-pixels-on-fast-and-general-path', f'{K}/second-raster-cut-with-the-same-grid-differs',
+                          f'{desc}: the grid of get_crop_inputs was passed to fast_remap twice with the same page: shapes {fast.shape} / {second.shape}'
+                          + ('' if second.shape != fast.shape else f', max difference {maxdiff(second, fast)}'))
+            return
+        ctx.tag('same-grid-used-for-a-second-raster')
+    # the crop handed back together with its forward mapping (baseline refinement asks for it): the same crop, and the mapping is where the crop
+    # was sampled - on the coordinate image the crop IS the source coordinate of its samples
+    if case['h'] == 0 and case['slope'] in (0, 3, 6):
+        res = eng.crop(img, np.asarray(pts), hts, return_forward_mapping=True)
+        ctx.executed()
+        c3, fwd = res
+        if c3.shape != crop.shape or not (maxdiff(c3, crop) <= 1e-3):
+            ctx.violation('same-crop-on-every-call', f'{K}/crop-returned-with-its-forward-mapping-differs',
+                          f'{desc}: crop(..., return_forward_mapping=True) returns a crop of shape {c3.shape}, the plain call {crop.shape}')
+            return
+        fwd = np.asarray(fwd)
+        # samples taken from the page proper only: on the border a sample is blended with the constant outside (weight w -> coordinate x * w)
+        sel = c3[:, :, 2] > 1 - 1e-5
+        if fwd.shape != c3.shape[:2] + (2,) or not (maxdiff(fwd[sel], c3[:, :, :2][sel]) <= 0.1):
+            ctx.violation('samples-the-band', f'{K}/forward-mapping-returned-with-the-crop-is-not-where-the-crop-was-sampled',
+                          f'{desc}: mapping of shape {fwd.shape} for a crop {c3.shape}'
+                          + ('' if fwd.shape != c3.shape[:2] + (2,) else f'; it is up to {maxdiff(fwd[sel], c3[:, :, :2][sel])} px away from the source '
+                             f'coordinates of the samples taken from the page (first sample: mapping {fwd[0, 0].tolist()}, crop {c3[0, 0, :2].tolist()})'))
+            return
+        if sel.any():
+            ctx.tag('crop-with-forward-mapping-inside-the-page' if sel.all() else 'crop-with-forward-mapping-partly-outside')
     if case['dx'] == 59 and case['slope'] == 1 and case['pc'] == 0 and lh == 16 and sc == 1.0 and case['h'] == 0 and case['start'] == 0:
         ctx.sample({'baseline': pts, 'heights': [h_up, h_down], 'poly': poly, 'crop_shape': list(crop.shape),
                     'source_xy_of_first_column_first_and_last_row': [XY[0, 0].round(2).tolist(), XY[-1, 0].round(2).tolist()]})
@@ -653,7 +709,7 @@ def describe(tier):
     return {
         'rule': 'all combinations start(3) x dx x slope(9) x point configuration(6) x heights x poly(3) x line height x scale; degenerate set (10 baselines '
                 'x 3 interpolation orders x 4 containers of the baseline x crop/LineCropper); histories of one cropper: all sequences of length 1..depth over '
-                '12 public events (crop, sampling grid of another height, line_height / scale / poly changed) x 3 lines x 2 initial heights x 3 orders. '
+                '15 public events (crop, sampling grid of another height, line_height / scale / poly changed, a degenerate line cropped in between) x 3 lines x 2 initial heights x 3 orders. '
                 'state = distinct (baseline, heights, line height, scale, poly) resp. (line, initial configuration, history). Non-trivial: baselines whose '
                 'inner points deviate from the chord (curve fitting matters); counters for cubic>=4 points, general-vs-fast path, fast_remap-vs-full.',
         'bounds': {k: (v if len(v) < 12 else f'{v[0]}..{v[-1]} step {v[1] - v[0]}') for k, v in b.items()},
@@ -668,5 +724,7 @@ def describe(tier):
         'required_tags': ['band-touching-the-page-by-one-row-or-column', 'baseline-array-moved-in-place', 'consecutive-crops-of-equal-shape', 'baselines-with-more-than-64-points', 'curved-baselines', 'cubic-with-4-or-more-points', 'general-path-vs-fast-path', 'fast-path-vs-full-remap',
                           'degenerate-baselines', 'cropped-twice', 'line-cropper-partly-outside', 'baseline-dtypes', 'page-cropped-again-after-the-layout-changed',
                           'baseline-held-as-a-python-sequence', 'blank-fallback-of-a-baseline-held-as-a-python-sequence',
-                          'cropper-reused-after-its-configuration-changed', 'crop-after-a-sampling-grid-of-another-height'],
+                          'cropper-reused-after-its-configuration-changed', 'crop-after-a-sampling-grid-of-another-height',
+                          'crop-after-a-line-that-fell-back-to-the-blank-image', 'same-grid-used-for-a-second-raster',
+                          'crop-with-forward-mapping-inside-the-page', 'crop-with-forward-mapping-partly-outside'],
     }
